@@ -77,3 +77,14 @@ impl F64 {
     #[verifier::external_body]
     pub fn trunc(self) -> (r: F64) ensures self.r() >= 0real ==> r.r() == rfloor(self.r()) as real, self.r() < 0real ==> r.r() <= 0real, r.fin() == self.fin() { unimplemented!() }
 }
+pub open spec fn rceil(x: real) -> int { -((-x).floor()) }
+impl F64 {
+    #[verifier::external_body]
+    pub fn ceil(self) -> (r: F64) ensures r.r() == rceil(self.r()) as real, r.fin() == self.fin() { unimplemented!() }
+}
+impl F64 {
+    #[verifier::external_body]
+    pub fn floor(self) -> (r: F64) ensures r.r() == rfloor(self.r()) as real, r.fin() == self.fin() { unimplemented!() }
+    #[verifier::external_body]
+    pub fn round(self) -> (r: F64) ensures self.r() >= 0real ==> r.r() == rfloor(self.r() + 0.5real) as real, r.fin() == self.fin() { unimplemented!() }
+}
